@@ -97,6 +97,18 @@ def _cases(tier, seed):
             yield s, (SEEDS + rseeds)[r % 10]
         yield "\xff" * n, 0
         yield "\xff" * n, 0xFFFFFFFF
+    # every way of splitting one text into (data, decimal seed): pairs that agree when glued together but are different
+    # inputs (memoisation keyed by anything coarser than the pair), in both orders
+    for text in ("ab10", "k2147483648", "10", "1", "x4294967295", "key:2147483648", "n42", "7", "a0", "00", "mc1:11211-k1"):
+        pairs = []
+        for i in range(len(text) + 1):
+            tail = text[i:]
+            if tail == "":
+                pairs.append((text, 0))
+            elif tail.isdigit() and (tail == "0" or not tail.startswith("0")) and int(tail) <= 0xFFFFFFFF:
+                pairs.append((text[:i], int(tail)))
+        for p_ in pairs + pairs[::-1]:
+            yield p_ + ("every-shard",)        # the pairs of one text must meet in one process
     # typical rendezvous inputs
     for i in range(500 if tier == "quick" else 5000):
         yield "127.0.0.%d:11211-key%d" % (i % 7, i), 0
@@ -133,8 +145,9 @@ def shard(tier, seed, idx, n):
                 res.violation("vector-mismatch", "published vector: %s" % state["last"], case)
             res.case(("vec", case) if d else None, None)
     batch = []
-    for i, (s, sd) in enumerate(_cases(tier, seed)):
-        if i % n != idx:
+    for i, case_ in enumerate(_cases(tier, seed)):
+        s, sd = case_[0], case_[1]
+        if len(case_) == 2 and i % n != idx:
             continue
         try:
             r1 = fn(s, sd)
